@@ -933,6 +933,62 @@ def translate(repo):
     out.append("/-- `InducingPointKernel.__deepcopy__(self, memo)`: how each constructor argument of the copy is obtained -/\n"
                "def inducingDeepcopyArgs : List (String × Structured.CopyMode) :=\n  [" + ", ".join(rows) + "]\n\n")
 
+
+    # ---------------- eval-mode caches of the structured kernels: who may READ them, who must DROP them
+    def _ifs(fn_):
+        return [x for x in ast.walk(fn_) if isinstance(x, ast.If)]
+
+    def read_guarded(fn_, attr):
+        """every `if` whose test mentions the cache attribute reads it only outside training mode"""
+        tests = [_u(x.test) for x in _ifs(fn_) if f"hasattr(self, '{attr}')" in _u(x.test)]
+        return bool(tests) and all(t == f"not self.training and hasattr(self, '{attr}')" for t in tests)
+
+    def writes_guarded(fn_, attr):
+        """every assignment to the cache attribute sits under `if not self.training:` (possibly with the read guard as `else`)"""
+        ok, found = True, False
+        def walk(stmts, in_eval):
+            nonlocal ok, found
+            for x in stmts:
+                if isinstance(x, ast.Assign) and any(_u(t) == f"self.{attr}" for t in x.targets):
+                    found = True
+                    ok = ok and in_eval
+                elif isinstance(x, ast.If):
+                    walk(x.body, in_eval or _u(x.test) == "not self.training")
+                    walk(x.orelse, in_eval)
+                elif isinstance(x, (ast.With, ast.For)):
+                    walk(x.body, in_eval)
+        walk(fn_.body, False)
+        return ok and found
+
+    facts = []
+    fm_, fr_ = S.func(IPK, "InducingPointKernel", "_inducing_mat"), S.func(IPK, "InducingPointKernel", "_inducing_inv_root")
+    facts.append(("InducingPointKernel._inducing_mat reads its cache only in eval mode", read_guarded(fm_, "_cached_kernel_mat")))
+    facts.append(("InducingPointKernel._inducing_mat writes its cache only in eval mode", writes_guarded(fm_, "_cached_kernel_mat")))
+    facts.append(("InducingPointKernel._inducing_inv_root reads its cache only in eval mode", read_guarded(fr_, "_cached_kernel_inv_root")))
+    facts.append(("InducingPointKernel._inducing_inv_root writes its cache only in eval mode", writes_guarded(fr_, "_cached_kernel_inv_root")))
+    fc_ = S.func(IPK, "InducingPointKernel", "_clear_cache")
+    dels = sorted(_u(x) for x in ast.walk(fc_) if isinstance(x, ast.Delete))
+    facts.append(("InducingPointKernel._clear_cache drops both caches", dels == ["del self._cached_kernel_inv_root", "del self._cached_kernel_mat"]))
+    GKF = "kernels/grid_kernel.py"
+    gf_ = S.func(GKF, "GridKernel", "forward")
+    facts.append(("GridKernel.forward reads its cache only in eval mode", read_guarded(gf_, "_cached_kernel_mat")))
+    facts.append(("GridKernel.forward writes its cache only in eval mode", writes_guarded(gf_, "_cached_kernel_mat")))
+    gu_ = S.func(GKF, "GridKernel", "update_grid")
+    facts.append(("GridKernel.update_grid drops the cache unconditionally (also in interpolation mode)",
+                  any(isinstance(x, ast.Expr) and _u(x) == "self._clear_cache()" for x in gu_.body)))
+    gc_ = S.func(GKF, "GridKernel", "_clear_cache")
+    facts.append(("GridKernel._clear_cache drops the cached kernel matrix", any(_u(x) == "del self._cached_kernel_mat" for x in ast.walk(gc_))))
+    mt_ = S.func("module.py", "Module", "train")
+    tests = [_u(x.test) for x in mt_.body if isinstance(x, ast.If) and any(_u(y) == "self._clear_cache()" for y in x.body)]
+    # cleared on EVERY switch that enters training mode and on leaving it
+    facts.append(("Module.train clears the eval caches when entering training mode", tests in (["self.training and (not mode) or mode"], ["mode or (self.training and (not mode))"], ["True"])
+                  or any(isinstance(x, ast.Expr) and _u(x) == "self._clear_cache()" for x in mt_.body)))
+    facts.append(("Module.train clears the eval caches when leaving training mode", bool(tests) and all("self.training and (not mode)" in t or t == "True" for t in tests)
+                  or any(isinstance(x, ast.Expr) and _u(x) == "self._clear_cache()" for x in mt_.body)))
+    out.append("/-- eval-mode caches of the structured kernels (`_cached_kernel_mat`, `_cached_kernel_inv_root`): read / write guards and the\n"
+               "invalidation points, as found in the source -/\n"
+               "def evalCacheFacts : List (String × Bool) :=\n  [" + ",\n   ".join(f'("{k}", {"true" if v else "false"})' for k, v in facts) + "]\n\n")
+
     # ---------------- MultitaskKernel / IndexKernel / LCMKernel
     fn = S.func("kernels/multitask_kernel.py", "MultitaskKernel", "forward")
     I = Interp({"self.task_covar_module.covar_matrix": mat("Kt"), "self.data_covar_module.forward(x1, x2, **params)": mat("Kx")},
